@@ -23,7 +23,8 @@ PROPERTY_ID = "C09"
 LEVEL = "exploration"
 RULE = ("A case is one gene on a real record plus the protein ranges asked of it. Genes are built by "
         "construction: strand x 1-4 exons cut from a coding length of codon_start-1 + 3n (+ stop codon) "
-        "(+ 1-2 trailing bases) with cut points biased to codon borders, introns of 0-60 bases, linear or "
+        "(+ 1-2 trailing bases) with cut points biased to codon borders, introns of 0-60 bases (one junction in ~15 "
+        "genes instead overlaps by 1-2 bases, the programmed-frameshift annotation), linear or "
         "circular record, one in three circular genes rotated so that the origin falls inside an exon, "
         "exactly on an exon border or inside an intron; the gene is created through CDSFeature.from_biopython "
         "with a codon_start qualifier and without a translation qualifier, so the frameshift and translation "
@@ -835,6 +836,15 @@ def _sig_overlap(sub, spec, clause, detail) -> bool:
             and detail.get("first_clause") in ("length", "exception"))
 
 
+def _sig_overlap_refused(sub, spec, clause, detail) -> bool:
+    """ two exons of the gene overlap AND the only failures are Feature() refusing the (right) sub-location because two
+        of its parts share an end coordinate ('location contains overlapping exons') """
+    first = detail.get("first") or {}
+    return (_sig_overlap(sub, spec, clause, detail) and detail.get("first_clause") == "exception"
+            and first.get("exception") == "ValueError"
+            and "location contains overlapping exons" in str(first.get("message", "")))
+
+
 def _sig_tta(sub, spec, clause, detail) -> bool:
     """ gene with more than one part AND every misplaced marker sits at location.start+offset / end-offset-3 """
     return (sub in ("tta", "tta_enum") and len(spec["loc"]["parts"]) > 1
@@ -860,6 +870,7 @@ SIGNATURES = {
     "span_coordinate_order": _sig_span,
     "tta_linear_offset": _sig_tta,
     "overlap_boundary": _sig_overlap,
+    "overlap_same_end_refused": _sig_overlap_refused,
     "prepeptide_stop_codon_appended": _sig_prepeptide_appended,
     "prepeptide_stop_codon_shifted": _sig_prepeptide_shifted,
 }
